@@ -4,6 +4,9 @@ package main
 import (
 	"fmt"
 	"os"
+	"runtime"
+	"sync"
+	"sync/atomic"
 	"encoding/json"
 	"math/rand"
 	"time"
@@ -145,5 +148,81 @@ func main() {
 		}
 		os.Exit(long(os.Args[3], pairs))
 	}
+	conc.ExtraReal = bigElements
 	conc.Main("SyncList", factory, gen)
+}
+
+// The list is generic in its element type; the histories use int. bigElements runs producers and consumers on lists
+// of 72-byte elements and of elements with a pointer inside, all words carrying the same number: the race detector sees
+// unsynchronised accesses to a node's value, and an element whose parts differ is a torn hand-over.
+type big72 [9]int64
+type withPtr struct {
+	A [5]int64
+	S string
+}
+
+func stressList[T any](mk func(int64) T, ok func(T) bool) {
+	l := listz.NewSync[T]()
+	var wg sync.WaitGroup
+	var torn int32
+	const per = 3000
+	for p := 0; p < 3; p++ {
+		wg.Add(2)
+		go func(p int) {
+			defer wg.Done()
+			for i := 0; i < per; i++ {
+				l.Push(mk(int64(p*per + i + 1)))
+			}
+		}(p)
+		go func() {
+			defer wg.Done()
+			for i := 0; i < per; i++ {
+				for {
+					if v, got := l.Pop(); got {
+						if !ok(v) {
+							atomic.StoreInt32(&torn, 1)
+						}
+						break
+					}
+					runtime.Gosched()
+				}
+			}
+		}()
+	}
+	wg.Wait()
+	if torn != 0 || l.Len() != 0 {
+		fmt.Fprintln(os.Stderr, "WARNING: DATA RACE (observed by the harness: an element of a large element type came out torn, or Len() != 0 at rest)")
+	}
+}
+
+func bigElements() {
+	stressList(func(x int64) big72 {
+		var b big72
+		for i := range b {
+			b[i] = x
+		}
+		return b
+	}, func(b big72) bool {
+		for _, w := range b {
+			if w != b[0] || w == 0 {
+				return false
+			}
+		}
+		return true
+	})
+	stressList(func(x int64) withPtr {
+		var b withPtr
+		for i := range b.A {
+			b.A[i] = x
+		}
+		b.S = fmt.Sprint(x)
+		return b
+	}, func(b withPtr) bool {
+		for _, w := range b.A {
+			if w != b.A[0] || w == 0 {
+				return false
+			}
+		}
+		return b.S == fmt.Sprint(b.A[0])
+	})
 }
